@@ -82,9 +82,9 @@ class VCGen:
             _, has, val = st.v[e.value.id]
             self.oblige(f"safety:keyerror:{self.ev('getsub')}", st, z3.Select(has, k[1]))
             return (self.spec.DICT_VAL.get(e.value.id, "int"), z3.Select(val, k[1]))
-        if isinstance(e, ast.Subscript) and isinstance(e.value, ast.Name) and st.v.get(e.value.id, ("",))[0] == "tuple2":
+        if isinstance(e, ast.Subscript) and isinstance(e.value, ast.Name) and st.v.get(e.value.id, ("",))[0] == "pair":
             if isinstance(e.slice, ast.Constant) and e.slice.value in (0, 1):
-                return st.v[e.value.id][1 + e.slice.value]
+                return self.spec.project(st.v[e.value.id][1], e.slice.value)
         raise ExtractError(f"unsupported expression {ast.dump(e)[:80]}")
 
     def cond(self, e, st):
